@@ -245,3 +245,85 @@ def call_execute_twins(F, R, dl):
         R.ob("C07:call-execute-twin:%s" % name[4:], same,
              "the arms of %s and %s differ in more than the continuation (p += 1 / p = cp)%s: the builtin behaves differently as the last goal of a clause" % (name, twin, extra), where)
     R.floor("Call/Execute instruction pairs", n, 270)
+    opaque_to_cut(F, R)
+
+
+def opaque_to_cut(F, R):
+    """ISO 7.8: the argument of \\+/1 and the condition of ->/2 are opaque to cut — a cut inside cuts back to where that
+    sub-goal started. Both implementations of the control constructs must give such a sub-goal its own cut point:
+    (a) the clause compiler (disjuncts.rs, classify_body_variables) by bracketing the sub-term with OverrideGlobalCutVar /
+    ResetGlobalCutVarOverride after a GetCutPoint; (b) the interpreted constructs (builtins.pl, dispatch_prep_/3, used by
+    call/N) by preparing the condition with a cut-point variable of its own that a get_cp/1 continuation binds."""
+    import os
+    from .core import matches_in, atom_of, REPO
+    sys_path = os.path.dirname(os.path.dirname(os.path.abspath(__file__)))
+    import sys
+    if sys_path not in sys.path:
+        sys.path.insert(0, sys_path)
+    from plread import plread as P
+    fns = [p for p in F.items if p.endswith("VariableClassifier::classify_body_variables")]
+    if len(fns) != 1:
+        raise AnchorLost("VariableClassifier::classify_body_variables (%d)" % len(fns))
+    h = F.hir(fns[0])
+    found = {}
+    for m in matches_in(h["body"], src=None):
+        for arm in m["arms"]:
+            ats = set(a for a in (atom_of(x) for x in walk(arm["pat"]) if isinstance(x, dict)) if a)
+            for name in ("->", "\\+"):
+                if ats == {name}:
+                    ctors = []
+                    for x in walk(arm["body"]):
+                        if x["k"] == "Call" and "TraversalState::" in (x.get("ctor") or ""):
+                            ctors.append(x["ctor"].rsplit("::", 1)[-1])
+                        elif x["k"] == "Struct" and (x.get("ty") or "").endswith("TraversalState"):
+                            r = x.get("res")
+                            ctors.append((r if isinstance(r, str) else (r or {}).get("def") or (r or {}).get("path") or "?").rsplit("::", 1)[-1])
+                    found[name] = (arm["ln"], ctors)
+    if set(found) != {"->", "\\+"}:
+        raise AnchorLost("classify_body_variables: arms for ->/2 and \\+/1 not both found (%s)" % sorted(found))
+    for name, (ln, ctors) in sorted(found.items()):
+        ok = "OverrideGlobalCutVar" in ctors and "ResetGlobalCutVarOverride" in ctors
+        R.ob("C07:opaque-to-cut:compiler:%s" % ("if-then-condition" if name == "->" else "negation"), ok,
+             "the compiler's arm for %s (line %s) pushes %s: without OverrideGlobalCutVar/ResetGlobalCutVarOverride around the opaque sub-goal a cut inside it "
+             "cuts the whole clause ( t :- ( (!, fail) -> a ; b ). fails instead of running b )" % (name, ln, sorted(set(ctors))), "%s (line %s)" % (F.where(fns[0]), ln))
+    # (b) builtins.pl
+    text = open(os.path.join(REPO, "src/lib/builtins.pl")).read()
+    n = 0
+    for t, line in P.read_clauses(text):
+        head, body = P.head_body(t)
+        if P.functor(head) != ("dispatch_prep_", 3):
+            continue
+        outer_b = head[2][1]
+        goals = []
+        stack = [body]
+        while stack:
+            g = stack.pop()
+            if g[0] == "cmp" and g[1] in (",", ";", "->") and len(g[2]) == 2:
+                stack.extend(g[2])
+            else:
+                goals.append(g)
+        # conditions: first argument of a ->/2 in the head pattern, or of a `X = (C -> T)` unification in the body
+        conds = []
+        for x in [head[2][0]] + [g[2][1] for g in goals if g[0] == "cmp" and g[1] == "=" and len(g[2]) == 2]:
+            for y in subterms_pl(x):
+                if y[0] == "cmp" and y[1] == "->" and len(y[2]) == 2 and y[2][0][0] == "var":
+                    conds.append(y[2][0])
+        for c in conds:
+            preps = [g for g in goals if P.functor(g) == ("dispatch_prep", 3) and g[2][0] == c]
+            if not preps:
+                continue
+            n += 1
+            bvar = preps[0][2][1]
+            bound = any(y[0] == "cmp" and y[1] == "get_cp" and y[2] == [bvar] for g in goals for y in subterms_pl(g))
+            R.ob("C07:opaque-to-cut:call:%s-condition" % ("if-then-else" if head[2][0][1] == ";" else "if-then"), bvar != outer_b and bound,
+                 "dispatch_prep_/3 (builtins.pl line %s) prepares the condition %s with cut-point variable %s%s: a cut inside the condition of an if-then-else reached "
+                 "through call/N must cut to a point taken by get_cp/1 when the condition starts, not to the caller's"
+                 % (line, c[1], bvar[1], " (the caller's)" if bvar == outer_b else (" which no get_cp/1 continuation binds" if not bound else "")), "src/lib/builtins.pl (line %s)" % line)
+    R.floor("conditions prepared by dispatch_prep_/3", n, 2)
+
+
+def subterms_pl(t):
+    yield t
+    if t[0] == "cmp":
+        for a in t[2]:
+            yield from subterms_pl(a)
